@@ -77,7 +77,7 @@ def draw_gmm(n, loc, scale, pvals, random_state=None) -> Tuple[np.ndarray, np.nd
             X += [generator.normal(loc[k], np.sqrt(scale[k]).reshape(-1), size=(n,))]
     else:
         for k in range(K):
-            if np.any(np.linalg.eigvals(scale[k]) < 0):
+            if not np.allclose(scale[k], scale[k].T) or np.any(np.linalg.eigvals(scale[k]) < 0):
                 raise ValueError(f"The {k}-th covariance is not positive semi-definite")
             if np.all(scale[k] == 0):
                 raise ValueError(f"The {k}-th covariance matrix contains only zeroes")
